@@ -19,6 +19,9 @@ pub fn err_variant(e: &ChunkDeserializationError) -> String {
         ChunkDeserializationError::NoPreviousChunkOnStream { csid } => format!("NoPreviousChunkOnStream(csid={})", csid),
         ChunkDeserializationError::InvalidMaxChunkSize { chunk_size } => format!("InvalidMaxChunkSize({})", chunk_size),
         ChunkDeserializationError::Io(_) => "Io".to_string(),
+        // a variant added to the library later must not break the build of the checks
+        #[allow(unreachable_patterns)]
+        _ => "other-variant".to_string(),
     }
 }
 
